@@ -22,6 +22,10 @@ for d in sorted(os.listdir(ROOT)):
         first = {True: "yes", False: "no"}.get(m.get("detected"), "?")
     after = "" if m.get("detected") or not m.get("detected_after") else " → yes after strengthening"
     now = ", ".join(p + (" (correspondence only)" if p in nfi else "") for p in caught) or ("-" if r else "not re-run")
+    if not r:   # no entry of a full run_seeded pass yet: what eval_seed.py / the strengthening run recorded in meta.json
+        by = m.get("caught_by_now") or sorted(p for p, v in (m.get("checks_run") or {}).items() if v.get("exit") == 1)
+        if by:
+            now = ", ".join(by) + " (as recorded in meta.json when the seed was evaluated)"
     if missed:
         now += " / not by " + ", ".join(missed)
     rows.append(f"| {d} | {title} | {first}{after} | {now} |")
